@@ -14,7 +14,7 @@ from typing import Dict, List, Optional, Set, Tuple
 
 from ..model import Repo, ClassInfo, FuncInfo, AnalysisError, norm, parent, ancestors, enclosing_stmt, const_str
 from ..report import Ctx, RuleResult
-from ..exprs import has_pat, find_pat
+from ..exprs import call_args_by_name, has_pat, find_pat
 
 ATOMS = ('K', 'T', 'F', 'U')
 
@@ -172,14 +172,17 @@ def run_keep(ctx: Ctx) -> RuleResult:
     from ..exprs import match_cond
     fo = match_cond(pat.body_nodes(), '$$cond', 'False', 'isinstance($p, PatternStr)', {'p': pparam}, target_src='$fo')
     okp = len(fo) == 1 and 'keep_all_tokens' in fo[0][1]['$$cond'] and \
-        has_pat(pat.body_nodes(), 'return Terminal($$n, filter_out=$fo)', {'fo': fo[0][1]['fo']})
+        any(isinstance(r_, ast.Return) and isinstance(r_.value, ast.Call) and norm(r_.value.func) == 'Terminal'
+            and norm(call_args_by_name(repo, r_.value, 'lark.grammar:Terminal').get('filter_out', ast.Constant(value=None))) == fo[0][1]['fo']
+            for r_ in pat.body_nodes())
     res.ob('%s %s' % (pat.loc(), pat.qual), 'anonymous terminals: filtered iff they are string literals (never under !)', okp)
     if not okp:
         res.finding(pat, pat.node, 'anonymous terminals are no longer marked "filter out iff string literal (and the rule is not !)"',
                     construct='keep:anon')
     pg = repo.func('lark.load_grammar:PrepareGrammar.terminal')
-    okg = any(isinstance(n, ast.Call) and norm(n.func) == 'Terminal' and any(
-        k.arg == 'filter_out' and norm(k.value) == "name.startswith('_')" for k in n.keywords) for n in pg.body_nodes())
+    okg = any(isinstance(n, ast.Call) and norm(n.func) == 'Terminal'
+              and norm(call_args_by_name(repo, n, 'lark.grammar:Terminal').get('filter_out', ast.Constant(value=None))) == "name.startswith('_')"
+              for n in pg.body_nodes())
     res.ob('%s %s' % (pg.loc(), pg.qual), 'named terminals: filtered iff the name starts with an underscore', okg)
     if not okg:
         res.finding(pg, pg.node, 'named terminals are no longer filtered exactly when their name starts with "_"', construct='keep:named')
